@@ -199,6 +199,9 @@ pub struct CodegenContext {
 
     /// The files that are being imported right now (innermost last), to detect a file that imports itself
     import_stack: Vec<PathBuf>,
+
+    /// The value every definition of a variable gave it in the previous pass
+    variable_definitions: HashMap<(SymbolIndex, Span), SymbolData>,
 }
 
 #[derive(Debug, PartialEq, Eq, Hash)]
@@ -248,6 +251,7 @@ impl CodegenContext {
             test_elements: vec![],
             source_map: SourceMap::default(),
             import_stack: vec![],
+            variable_definitions: HashMap::new(),
         }
     }
 
@@ -434,9 +438,21 @@ impl CodegenContext {
             }
         };
 
-        // Variables don't require a new pass, since if they update somewhere in the assembly process
-        // they would keep triggering new passes
-        if maybe_require_new_pass && ty != SymbolType::Variable {
+        // A variable may be given many values in the course of a pass, so a change of its value as such does not call for
+        // another pass. What does is a definition that gives it another value than the same definition did in the previous
+        // pass (e.g. '.var here = *' after code that changed size): whatever used it got the previous value.
+        if ty == SymbolType::Variable {
+            maybe_require_new_pass = match (span, self.symbols.try_get(symbol_nx)) {
+                (Some(span), Some(symbol)) => {
+                    let value = symbol.data.clone();
+                    let key = (self.current_scope_nx, span);
+                    self.variable_definitions.insert(key, value.clone()) != Some(value)
+                }
+                _ => false,
+            };
+        }
+
+        if maybe_require_new_pass {
             self.undefined.insert(UndefinedSymbol {
                 scope_nx: self.current_scope_nx,
                 id,
@@ -1513,7 +1529,12 @@ pub fn codegen(
             if errors.is_empty() {
                 // Nothing undefined anymore? Then we're done!
                 if ctx.undefined.is_empty() {
-                    break;
+                    // The first pass also finds out which symbols there are: a name that is defined further on in its scope
+                    // is not known yet where it is used, and the use binds to a symbol of an enclosing scope instead.
+                    // So one pass is never enough.
+                    if ctx.pass_idx > 0 {
+                        break;
+                    }
                 } else {
                     // If the same symbols are undefined that were undefined in the previous pass, they are truly undefined.
                     if ctx.undefined == prev_undefined {
